@@ -90,6 +90,7 @@ func NewClientWithLogger(
 		ctx,
 		cancel,
 		sync.WaitGroup{},
+		sync.Mutex{},
 	}
 }
 
@@ -122,6 +123,7 @@ type client struct {
 	context                          context.Context
 	cancelFunc                       context.CancelFunc
 	wg                               sync.WaitGroup // For the read loop.
+	v1ReadMutex                      sync.Mutex     // ATP v1 only: one result is read from the shared decoder at a time.
 }
 
 func (c *client) sendCBOR(message any) error {
@@ -557,6 +559,10 @@ func (c *client) getResultV1(
 ) ExecutionResult {
 	var doneMessage WorkDoneMessage
 	vh("c.v1decode.pre", "run", stepData.RunID)
+	// ATP v1 has no read loop: every Execute call reads its own result. The decoder is shared by all calls
+	// and must not be used by two of them at once.
+	c.v1ReadMutex.Lock()
+	defer c.v1ReadMutex.Unlock()
 	if err := cborReader.Decode(&doneMessage); err != nil {
 		vh("c.v1decode", "run", stepData.RunID, "err", err)
 		err = fmt.Errorf("failed to read or decode work done message (%w) for step %s", err, stepData.ID)
